@@ -105,4 +105,7 @@ def obligations(tier, rng):
               ('historically', ('implies', ('gt', X, ('const', 0.0)), ('once_t', ('lt', Y, X), 1, 2)))][:1 if quick else 3]:
         out.append(ob('C19', 'grid', 'spec/%s/N=%d' % (text(f), 4 if quick else 5), f=f, N=4 if quick else 5, P='1', max_paths=60000, wall=1500))
     seen = set()
-    return [o for o in out if not (o['oid'] in seen or seen.add(o['oid']))]
+    res_ = [o for o in out if not (o['oid'] in seen or seen.add(o['oid']))]
+    from .. import core as _core
+    res_ = res_ + _core.make_twins(res_, [('F1/once[0,1](x)/P=1/N=4', 'window'), ('F1/(x) and (y)/P=1/N=4', 'minmax')]) + _core.make_forkmode(res_, [])
+    return res_
